@@ -8,7 +8,15 @@ use rayon::prelude::*;
 use crate::model::{Content, State};
 
 pub fn write_file(key: &String, content: &Content, to: &PathBuf) -> std::io::Result<()> {
-    fs::write(to.clone().join(format!("{}.md", key)), content.as_str())
+    // write next to the note and rename over it: a failed or interrupted write
+    // must never leave a truncated note behind
+    let path = to.clone().join(format!("{}.md", key));
+    let tmp = to.clone().join(format!("{}.md.tmp", key));
+    if let Err(err) = fs::write(&tmp, content.as_str()) {
+        let _ = fs::remove_file(&tmp);
+        return Err(err);
+    }
+    fs::rename(&tmp, &path)
 }
 
 pub fn new_for_path(base_path: &PathBuf) -> State {
